@@ -250,7 +250,7 @@ class Worker:
             out["loop_max"] = [rec.loop_codes[lc].co_name, ll, ln_]
         if rec.loop_over:
             out["loop_over"] = list(rec.loop_over)
-            out["ev"] = [e for e in ev if e["a"] not in ("Outcome", "CliOut")] + [{"a": "LoopOverrun"}]
+            out["ev"] = [{"a": "LoopOverrun"}]          # like Timeout: the execution was cut off by the monitor
         if rec.problems:
             out["problems"] = rec.problems[:5]
         if op == "inject":
